@@ -125,6 +125,60 @@ pub fn body(prefix: &[u8], free: usize, witness: bool) {
     }
 }
 
+/// C11 (absurd widths): ':' + `n` free decimal digits + '}' - the width is parsed exactly when it
+/// fits `usize`, otherwise the parser reports an error; it never panics or wraps.
+pub fn body_digits(n: usize, witness: bool) {
+    body_digits_prefix(b"", n, witness)
+}
+
+/// As above behind a fixed digit prefix (17 digits of 2^64 - 1 put the free digits across the boundary).
+pub fn body_digits_prefix(prefix: &[u8], n: usize, witness: bool) {
+    let mut b = [0u8; 28];
+    b[0] = b':';
+    let mut len = 1;
+    let mut val: Option<usize> = Some(0);
+    for &c in prefix {
+        b[len] = c;
+        len += 1;
+        val = match val {
+            Some(v) => match v.checked_mul(10) {
+                Some(m) => m.checked_add((c - b'0') as usize),
+                None => None,
+            },
+            None => None,
+        };
+    }
+    for _ in 0..n {
+        let d = sym::below(10);
+        b[len] = b'0' + d;
+        len += 1;
+        val = match val {
+            Some(v) => match v.checked_mul(10) {
+                Some(m) => m.checked_add(d as usize),
+                None => None,
+            },
+            None => None,
+        };
+    }
+    b[len] = b'}';
+    len += 1;
+    let text = unsafe { std::str::from_utf8_unchecked(&b[..len]) };
+    let (got, rest) = verif_parse_parameters(text);
+    match (got, val) {
+        (Some(g), Some(v)) => {
+            assert!(g.min_width == Some(v) && g.max_width.is_none(), "C11: a width that fits is parsed exactly");
+            assert!(rest == len - 1, "C11: all digits are consumed");
+        }
+        (None, None) => {}
+        _ => assert!(false, "C11: a width is an error exactly when it does not fit usize"),
+    }
+    cover!(val.is_none(), "a width that does not fit");
+    cover!(val.is_some(), "a width that fits");
+    if witness {
+        assert!(false, "WITNESS");
+    }
+}
+
 harnesses! {
     common {
         #[cfg_attr(kani, kani::stub(std::backtrace::Backtrace::capture, crate::util::stub_backtrace_capture))]
@@ -145,4 +199,14 @@ harnesses! {
     fn spec_fill4_free3() { body(&[0xF0, 0x9F, 0x98, 0x80], 3, false) }
     #[kani::unwind(12)]
     fn spec_free7() { body(&[], 7, false) }
+    #[kani::unwind(24)]
+    fn digits_boundary3() { body_digits_prefix(b"18446744073709551", 3, false) }
+    #[kani::unwind(24)]
+    fn digits_boundary3_witness() { body_digits_prefix(b"18446744073709551", 3, true) }
+    #[kani::unwind(24)]
+    fn digits20() { body_digits(20, false) }
+    #[kani::unwind(24)]
+    fn digits20_witness() { body_digits(20, true) }
+    #[kani::unwind(24)]
+    fn digits21() { body_digits(21, false) }
 }
